@@ -113,3 +113,137 @@ def mypy_crosscheck(ctx):
         ctx.error(f"lock-relevant call not in the call graph: {x}")
     if not d["disagree"] and not d["unresolved_lock_relevant"]:
         ctx.ok("rich/", f"{d['agree']} of {d['sites']} method-call sites resolved by both agree; {d['mypy_only']} resolved only by mypy, none of them lock-relevant; {d['ours_only']} only by the resolver")
+
+
+# ---------------------------------------------------------------------------
+# Lines.justify(justify="full") - shared by C02 (characters/units) and C14 (no IndexError)
+def _full_branch(ctx):
+    import ast as _ast
+    from ..index import AnchorVanished, norm
+    f = ctx.repo.fn("containers:Lines.justify")
+    for x in _ast.walk(f.node):
+        if isinstance(x, _ast.If) and isinstance(x.test, _ast.Compare) and norm(x.test.left) == "justify" and len(x.test.comparators) == 1 and isinstance(x.test.comparators[0], _ast.Constant) and x.test.comparators[0].value == "full":
+            return f, x
+    raise AnchorVanished("Lines.justify: branch `justify == 'full'` not found")
+
+
+def justify_full_units(ctx):
+    """C02: the space distribution measures words in cells (the unit of `width`), and every word is put back in order."""
+    import ast as _ast
+    from ..index import norm, short
+    f, br = _full_branch(ctx)
+    m = f.module
+    unit = {"width": "cells"}
+
+    def u(e):
+        if isinstance(e, _ast.Constant):
+            return "const"
+        if isinstance(e, _ast.Name):
+            return unit.get(e.id)
+        if isinstance(e, _ast.Call):
+            fn = norm(e.func)
+            if fn == "cell_len":
+                return "cells"
+            if fn == "len":
+                a = e.args[0] if e.args else None
+                # len(words) / len(spaces) count list elements; len(<Text or str>) counts characters
+                if isinstance(a, _ast.Name) and unit.get(a.id) == "list":
+                    return "count"
+                return "chars"
+            if fn == "sum" and e.args and isinstance(e.args[0], (_ast.GeneratorExp, _ast.ListComp)):
+                return u(e.args[0].elt)
+            return None
+        if isinstance(e, _ast.BinOp) and isinstance(e.op, (_ast.Add, _ast.Sub)):
+            us = {u(e.left), u(e.right)} - {"const", "count", None}
+            return us.pop() if len(us) == 1 else ("mixed" if len(us) == 2 else ("count" if "count" in (u(e.left), u(e.right)) else None))
+        return None
+
+    body = [x for st in br.body for x in _ast.walk(st)]
+    for x in body:
+        if isinstance(x, _ast.Assign) and len(x.targets) == 1 and isinstance(x.targets[0], _ast.Name):
+            v = x.value
+            if isinstance(v, (_ast.List, _ast.ListComp)) or (isinstance(v, _ast.Call) and isinstance(v.func, _ast.Attribute) and v.func.attr == "split"):
+                unit[x.targets[0].id] = "list"
+    for _ in range(3):
+        for x in body:
+            if isinstance(x, _ast.Assign) and len(x.targets) == 1 and isinstance(x.targets[0], _ast.Name):
+                uu = u(x.value)
+                if uu in ("cells", "chars", "count", "mixed") and unit.get(x.targets[0].id) in (None, uu):
+                    unit[x.targets[0].id] = uu
+    n = 0
+    for x in body:
+        if isinstance(x, _ast.Compare) and len(x.ops) == 1 and isinstance(x.ops[0], (_ast.Lt, _ast.Gt, _ast.LtE, _ast.GtE)):
+            a, b = u(x.left), u(x.comparators[0])
+            if "cells" in (a, b) or "chars" in (a, b) or "mixed" in (a, b):
+                n += 1
+                ctx.check(not ({a, b} == {"cells", "chars"} or "mixed" in (a, b)), f.fq, norm(x), f"{m.relpath}:{x.lineno}", f"`{norm(x)}` compares {a} with {b} (spaces count one cell each)",
+                          f"`{norm(x)}` in the full-justify branch compares a character count with the cell width: a line with double-width characters is padded beyond the width and the later truncate() crops real characters off its end")
+    ctx.floor(n, 1, "width comparisons in the full-justify branch")
+    # every word is re-emitted, in order, unconditionally
+    loops = [x for x in body if isinstance(x, _ast.For) and any(isinstance(c, _ast.Name) and c.id == "words" for c in _ast.walk(x.iter))]
+    ok = False
+    for lp in loops:
+        tnames = [t.id for t in _ast.walk(lp.target) if isinstance(t, _ast.Name)]
+        for st in lp.body:  # top-level statements of the loop body only (unconditional)
+            if isinstance(st, _ast.Expr) and isinstance(st.value, _ast.Call) and norm(st.value.func).endswith(".append") and st.value.args and isinstance(st.value.args[0], _ast.Name) and st.value.args[0].id in tnames:
+                ok = True
+    ctx.check(ok, f.fq, "tokens.append(word)", f"{m.relpath}:{br.lineno}", "every word of the line is appended to the rebuilt line, unconditionally and in order",
+              "the full-justify branch no longer re-appends every word of the line unconditionally: characters are dropped when the line is rebuilt")
+
+
+def justify_full_indices(ctx):
+    """C14: both subscripts of `spaces` in the full-justify branch are in range."""
+    import ast as _ast
+    from .. import cfg as cfgmod
+    from ..index import norm, short
+    f, br = _full_branch(ctx)
+    m = f.module
+    g = cfgmod.build(f.node)
+    rd = g.reaching_defs(weak=False)
+    inside = {id(x) for st in br.body for x in _ast.walk(st)}
+    subs = []
+    for n in g.stmt_nodes():
+        if n.stmt is None or id(n.stmt) not in inside or n.kind not in ("stmt",):
+            continue
+        for x in _ast.walk(n.stmt):
+            if isinstance(x, _ast.Subscript) and isinstance(x.value, _ast.Name) and x.value.id == "spaces" and not isinstance(x.slice, _ast.Slice):
+                subs.append((n, x))
+    ctx.floor(len(subs), 2, "subscripts of `spaces` in the full-justify branch")
+    spaces_defs = [n for n in g.stmt_nodes() if n.kind == "stmt" and isinstance(n.stmt, _ast.Assign) and norm(n.stmt.targets[0]) == "spaces"]
+    for n, x in subs:
+        where = f"{m.relpath}:{x.lineno}"
+        idx_names = [y.id for y in _ast.walk(x.slice) if isinstance(y, _ast.Name) and y.id != "spaces"]
+        facts = g.branch_facts(n.id)
+        # form A: spaces[len(spaces) - i - 1] with 0 <= i < len(spaces)
+        if norm(x.slice).replace(" ", "") in ("len(spaces)-index-1", "len(spaces)-1-index", "-index-1", "-1-index", "-(index+1)") or (len(idx_names) == 1 and "len(spaces)" in norm(x.slice)):
+            i = idx_names[0]
+            defs = rd.get(n.id, {}).get(i, set())
+            bad = []
+            for d in defs:
+                dn = g.nodes[d]
+                st = dn.stmt
+                v = st.value if isinstance(st, _ast.Assign) and dn.kind == "stmt" else None
+                okd = v is not None and ((isinstance(v, _ast.Constant) and v.value == 0) or (isinstance(v, _ast.BinOp) and isinstance(v.op, _ast.Mod) and norm(v.right) == "len(spaces)" and norm(v.left) in (f"{i} + 1", f"1 + {i}")))
+                if not okd:
+                    bad.append(short(st) if st is not None else "?")
+            ctx.check(not bad, f.fq, f"defs of {i} at {norm(x)}", where, f"`{i}` is 0 or ({i} + 1) % len(spaces) on every path to `{norm(x)}`",
+                      f"`{norm(x)}`: the cursor `{i}` can hold a value from `{'; '.join(bad)}` here (e.g. left over from a previous line or rebound by another loop), which may be >= len(spaces): IndexError while justifying")
+            nonempty = any(norm(t) in ("spaces", "num_spaces", "len(spaces)", "len(spaces) > 0", "num_spaces > 0") and v is True for t, v in facts)
+            ctx.check(nonempty, f.fq, "if spaces", where, "`spaces` is non-empty here", f"`{norm(x)}` is evaluated without a dominating `if spaces:` - a single-word line has no gaps and the modulo / subscript raises")
+            zero = {d.id for d in g.stmt_nodes() if d.kind == "stmt" and isinstance(d.stmt, _ast.Assign) and norm(d.stmt.targets[0]) == i and isinstance(d.stmt.value, _ast.Constant) and d.stmt.value.value == 0}
+            for sd in spaces_defs:
+                w = g.must_pass(sd.id, zero, {n.id})
+                ctx.check(w is None, f.fq, f"{i} = 0 after `spaces = ...`", where, f"`{i}` is reset to 0 after each new `spaces` list and before its first use",
+                          f"a path from `{short(sd.stmt)}` reaches `{norm(x)}` without passing `{i} = 0`: the cursor carries over from the previous line (whose gap count can be larger), so the subscript can be out of range", g.describe_path(w) if w else None)
+            # the list is not resized while the cursor is live
+            resize = [y for y in (z for st in br.body for z in _ast.walk(st)) if isinstance(y, _ast.Call) and isinstance(y.func, _ast.Attribute) and norm(y.func.value) == "spaces" and y.func.attr in ("append", "pop", "remove", "clear", "insert", "extend")]
+            ctx.check(not resize, f.fq, "spaces resized", where, "`spaces` keeps its length while it is indexed", f"`spaces` is resized ({short(resize[0]) if resize else ''}) while the cursor indexes it")
+        else:
+            # form B: spaces[i] guarded by i < len(spaces), i from enumerate (>= 0)
+            i = idx_names[0] if idx_names else None
+            guarded = any(norm(t) in (f"{i} < len(spaces)", f"len(spaces) > {i}") and v is True for t, v in facts)
+            ctx.check(i is not None and guarded, f.fq, norm(x), where, f"`{norm(x)}` is guarded by `{i} < len(spaces)`", f"`{norm(x)}` is evaluated without the guard `{i} < len(spaces)`: the last word has no following gap and the subscript raises IndexError")
+            if i is not None:
+                defs = rd.get(n.id, {}).get(i, set())
+                oke = all(g.nodes[d].kind == "for" and isinstance(g.nodes[d].stmt.iter, _ast.Call) and norm(g.nodes[d].stmt.iter.func) == "enumerate" and len(g.nodes[d].stmt.iter.args) == 1 for d in defs) and defs
+                ctx.check(bool(oke), f.fq, f"defs of {i}", where, f"`{i}` comes from enumerate(...) (non-negative)", f"`{i}` in `{norm(x)}` is not the counter of enumerate(...): it can be negative or stale")
